@@ -4,9 +4,9 @@
 pub trait GenericConfig<const D: usize> { type F; type Hasher; type InnerHasher; }
 impl<const D: usize> GenericConfig<D> for PoseidonGoldilocksConfig { type F = GoldilocksField; type Hasher = Poseidon2Hash; type InnerHasher = Poseidon2Hash; }
 
-/// plonk/circuit_data.rs CommonCircuitData: only `num_public_inputs` is read by the repository
+/// plonk/circuit_data.rs CommonCircuitData: only `num_public_inputs` and `config` are read by the repository
 #[verifier::reject_recursive_types(F)]
-pub struct CommonCircuitData<F, const D: usize> { pub num_public_inputs: usize, pub _p: core::marker::PhantomData<F> }
+pub struct CommonCircuitData<F, const D: usize> { pub num_public_inputs: usize, pub config: CircuitConfig, pub _p: core::marker::PhantomData<F> }
 #[verifier::external_body]
 #[verifier::reject_recursive_types(C)]
 pub struct VerifierOnlyCircuitData<C, const D: usize> { _p: core::marker::PhantomData<C> }
